@@ -249,6 +249,41 @@ fn stream_line() -> impl Strategy<Value = Vec<Vec<u8>>> {
                 build::line(n as u32, k as u32, Some((salt % 10) as u32), b"A", &p, 0)
             }).collect()
         }),
+        // two groups interleaved, one received (VDM) one own-ship (VDO), tag blocks on some of the lines: only
+        // the one opened last can complete, whatever the talker says
+        2 => (2usize..5, any::<u8>(), any::<u8>(), any::<bool>()).prop_map(|(n, salt, tags, vdo_first)| {
+            let mut out = Vec::new();
+            for k in 1..=n {
+                for g in 0..2usize {
+                    let vdo = (g == 0) == vdo_first;
+                    let p: Vec<u8> = (0..12).map(|j| armor::ALPHABET[(j * 3 + k + g * 7 + salt as usize) & 63]).collect();
+                    let mut s = Spec::simple(n as u32, k as u32, Some(1 + g as u32), b"A", &p, 0);
+                    if vdo {
+                        s.addr = *b"AIVDO";
+                    }
+                    if ((tags as u32) >> ((2 * k + g) % 8)) & 1 == 1 {
+                        s.tag = Some(b"s:2573345,c:1696241893*00".to_vec());
+                    }
+                    out.push(s.render());
+                }
+            }
+            out
+        }),
+        // one own-ship group with a tag block on some of its lines only
+        1 => (2usize..5, any::<u8>(), any::<u8>()).prop_map(|(n, salt, tags)| {
+            (1..=n).map(|k| {
+                let mut p: Vec<u8> = (0..14).map(|j| armor::ALPHABET[(j * 5 + k + salt as usize) & 63]).collect();
+                if k == 1 {
+                    p[0] = b'8';
+                }
+                let mut s = Spec::simple(n as u32, k as u32, Some(3), b"B", &p, 0);
+                s.addr = *b"AIVDO";
+                if ((tags as u32) >> (k % 8)) & 1 == 1 {
+                    s.tag = Some(b"c:1241544035*53".to_vec());
+                }
+                s.render()
+            }).collect()
+        }),
         // odd line endings
         1 => (any::<u32>(), proptest::collection::vec(any::<u8>(), 24), prop::sample::select(vec![&b"\r\r"[..], b" \r", b"\t", b"\r \r", b"\x0b"])).prop_map(|(m, n, end)| {
             let mut l = tagged_position(m & 0x3fff_ffff, &n);
